@@ -225,6 +225,7 @@ func scenarios(thorough bool) []scenario {
 		{Name: "I1-two-identical", Reqs: []reqSpec{a("A", "q1", "v1", "h1"), a("B", "q1", "v1", "h1")}},
 		{Name: "I3-different-variables", Reqs: []reqSpec{a("A", "q1", "v1", "h1"), a("B", "q1", "v2", "h1")}},
 		{Name: "I4-different-headers", Reqs: []reqSpec{a("A", "q1", "v1", "h1"), a("B", "q1", "v1", "h2")}},
+		{Name: "I10-different-operations", Reqs: []reqSpec{a("A", "q1", "v1", "h1"), a("B", "q2", "v1", "h1")}},
 		{Name: "I5-mutation-twice", Reqs: []reqSpec{{Name: "A", Op: "m1", Vars: "v1", Hdr: "h1", Mutation: true, FetchMut: true}, {Name: "B", Op: "m1", Vars: "v1", Hdr: "h1", Mutation: true, FetchMut: true}}},
 		{Name: "I6-upstream-fails", Reqs: []reqSpec{a("A", "q1", "v1", "h1"), a("B", "q1", "v1", "h1")}, FailKeys: map[string]bool{"q1/v1": true}},
 		{Name: "I8-follower-or-leader-cancels", Reqs: []reqSpec{{Name: "A", Op: "q1", Vars: "v1", Hdr: "h1", Cancel: true}, a("B", "q1", "v1", "h1")}},
